@@ -87,7 +87,7 @@ _replay_bin = {}
 
 def build_replay_binary(pid, pkg, overlay, overlay2=()):
     """go test -c of the package with the harness (native runtime) overlaid."""
-    key = (pkg, overlay)
+    key = (pkg, overlay, tuple(overlay2))
     if key in _replay_bin:
         return _replay_bin[key]
     wd = workdir(pid)
